@@ -13,6 +13,7 @@ COLLECTIONS = {
         "Electrons": {"banks": ["Electrons", "ForwardElectrons"], "ctype": "xAOD::ElectronContainer", "etype": "xAOD::Electron"},
         "Muons": {"banks": ["Muons"], "ctype": "xAOD::MuonContainer", "etype": "xAOD::Muon"},
         "MissingET": {"banks": ["MET_Core_AntiKt4EMTopo"], "ctype": "xAOD::MissingETContainer", "etype": "xAOD::MissingET"},
+        "TruthParticles": {"banks": ["TruthParticles"], "ctype": "xAOD::TruthParticleContainer", "etype": "xAOD::TruthParticle"},
     },
     "cms_aod": {
         "Muons": {"banks": ["muons", "globalMuons"], "ctype": "reco::MuonCollection", "etype": "reco::Muon"},
